@@ -372,6 +372,122 @@ def generate_m2m(tree):
     return out
 
 
+# ---------------------------------------------------------------------------------------------
+# OneToOne.update / __ior__ : type dispatch on the argument, validation loops, the final write loop
+# ---------------------------------------------------------------------------------------------
+class TrU:
+    """locals: keys_vals (list of pairs); parameters: dict_or_iterable (-> arg : uarg), **kw (-> kw : list kv)"""
+    ARG, KW, KV = "dict_or_iterable", "kw", "keys_vals"
+
+    def is_name(self, e, n):
+        return isinstance(e, ast.Name) and e.id == n
+
+    def call_of(self, e, fname, nargs):
+        return isinstance(e, ast.Call) and isinstance(e.func, ast.Name) and e.func.id == fname and \
+            len(e.args) == nargs and not e.keywords
+
+    def meth_of(self, e, objname, attr):
+        return isinstance(e, ast.Call) and isinstance(e.func, ast.Attribute) and e.func.attr == attr and \
+            self.is_name(e.func.value, objname) and not e.args and not e.keywords
+
+    def loop(self, s, rest):
+        if s.orelse:
+            raise Unsupported("for-else")
+        for n in ast.walk(ast.Module(body=s.body, type_ignores=[])):
+            if isinstance(n, (ast.Break, ast.Return, ast.Continue, ast.Yield, ast.For, ast.If)):
+                raise Unsupported("control flow inside a loop body of update")
+        # ---- iterable and binder
+        t, it = s.target, s.iter
+        if isinstance(t, ast.Name) and self.meth_of(it, self.ARG, "values"):
+            lst, binder, names = "(uarg_values arg)", "p_%s" % t.id, {t.id: "p_" + t.id}
+        elif isinstance(t, ast.Name) and self.meth_of(it, self.KW, "values"):
+            lst, binder, names = "(map snd kw)", "p_%s" % t.id, {t.id: "p_" + t.id}
+        elif isinstance(t, ast.Tuple) and len(t.elts) == 2 and all(isinstance(x, ast.Name) for x in t.elts) and \
+                self.is_name(it, self.KV):
+            a, b = t.elts[0].id, t.elts[1].id
+            lst, binder, names = "keys_vals", "p", {a: "(fst p)", b: "(snd p)"}
+        else:
+            raise Unsupported("loop %s" % ast.dump(s)[:200])
+        # ---- what the body assigns
+        writes_self = any(isinstance(x, ast.Assign) and isinstance(x.targets[0], ast.Subscript) for x in s.body)
+        writes_kv = any(isinstance(x, ast.Assign) and self.is_name(x.targets[0], self.KV) for x in s.body)
+        if writes_self and writes_kv:
+            raise Unsupported("loop body assigns both self and keys_vals")
+        carried = "self" if writes_self else ("keys_vals" if writes_kv else "_u")
+        init = "self" if writes_self else ("keys_vals" if writes_kv else "tt")
+        body = self.lbody(list(s.body), names, carried if carried != "_u" else "tt")
+        return "bind (pfor %s (fun %s %s =>\n%s) %s) (fun %s =>\n%s)" % (
+            lst, carried, binder, body, init, carried if carried != "_u" else "_", self.block(rest))
+
+    def lbody(self, stmts, names, result):
+        if not stmts:
+            return "Ok %s" % result
+        s, rest = stmts[0], stmts[1:]
+        if isinstance(s, ast.Expr) and self.call_of(s.value, "hash", 1) and isinstance(s.value.args[0], ast.Name) and \
+                s.value.args[0].id in names:
+            return "bind (py_hash %s) (fun _ =>\n%s)" % (names[s.value.args[0].id], self.lbody(rest, names, result))
+        if isinstance(s, ast.Assign) and len(s.targets) == 1 and self.is_name(s.targets[0], self.KV) and \
+                self.call_of(s.value, "list", 1) and self.meth_of(s.value.args[0], self.ARG, "items"):
+            return "let keys_vals := uarg_items arg in\n%s" % self.lbody(rest, names, result)
+        if isinstance(s, ast.Assign) and len(s.targets) == 1 and isinstance(s.targets[0], ast.Subscript) and \
+                self.is_name(s.targets[0].value, "self") and isinstance(s.targets[0].slice, ast.Name) and \
+                s.targets[0].slice.id in names and isinstance(s.value, ast.Name) and s.value.id in names:
+            return "bind (src_setitem self %s %s) (fun r => let self := snd r in\n%s)" % (
+                names[s.targets[0].slice.id], names[s.value.id], self.lbody(rest, names, result))
+        raise Unsupported("loop body statement %s" % ast.dump(s)[:200])
+
+    def block(self, stmts):
+        if not stmts:
+            return "Ok (VNone, self)"
+        s, rest = stmts[0], stmts[1:]
+        if isinstance(s, ast.Expr) and isinstance(s.value, ast.Constant) and isinstance(s.value.value, str):
+            return self.block(rest)
+        if isinstance(s, ast.Assign) and len(s.targets) == 1 and self.is_name(s.targets[0], self.KV):
+            v = s.value
+            if isinstance(v, ast.List) and not v.elts:
+                return "let keys_vals := [] in\n%s" % self.block(rest)
+            if self.call_of(v, "list", 1) and self.is_name(v.args[0], self.ARG):
+                return "bind (uarg_list arg) (fun keys_vals =>\n%s)" % self.block(rest)
+            raise Unsupported("assignment to keys_vals: %s" % ast.dump(v)[:200])
+        if isinstance(s, ast.If):
+            te = s.test
+            if self.call_of(te, "isinstance", 2) and self.is_name(te.args[0], self.ARG) and self.is_name(te.args[1], "dict"):
+                return "if uarg_is_dict arg then\n%s\nelse\n%s" % (self.block(s.body + rest), self.block(s.orelse + rest))
+            # if callable(getattr(x, 'keys', None)): x = [(k, x[k]) for k in x.keys()]
+            if self.call_of(te, "callable", 1) and self.call_of(te.args[0], "getattr", 3) and not s.orelse and \
+                    self.is_name(te.args[0].args[0], self.ARG) and isinstance(te.args[0].args[1], ast.Constant) and \
+                    te.args[0].args[1].value == "keys" and isinstance(te.args[0].args[2], ast.Constant) and \
+                    te.args[0].args[2].value is None and len(s.body) == 1:
+                b = s.body[0]
+                want = ast.parse("dict_or_iterable = [(k, dict_or_iterable[k]) for k in dict_or_iterable.keys()]").body[0]
+                if ast.dump(b) != ast.dump(want):
+                    raise Unsupported("mapping conversion of an unknown shape")
+                return "let arg := if uarg_has_keys arg then uarg_of_mapping arg else arg in\n%s" % self.block(rest)
+            raise Unsupported("if test %s" % ast.dump(te)[:200])
+        if isinstance(s, ast.For):
+            return self.loop(s, rest)
+        if isinstance(s, ast.Expr) and isinstance(s.value, ast.Call) and isinstance(s.value.func, ast.Attribute) and \
+                s.value.func.attr == "extend" and self.is_name(s.value.func.value, self.KV) and len(s.value.args) == 1 and \
+                self.meth_of(s.value.args[0], self.KW, "items"):
+            return "let keys_vals := keys_vals ++ kw in\n%s" % self.block(rest)
+        raise Unsupported("statement of update: %s" % ast.dump(s)[:200])
+
+    def update(self, node):
+        a = node.args
+        if [x.arg for x in a.args] != ["self", self.ARG] or a.vararg or a.kwonlyargs or a.posonlyargs or a.defaults or \
+                a.kwarg is None or a.kwarg.arg != self.KW or node.decorator_list:
+            raise Unsupported("update: parameter list changed")
+        return "Definition src_update (self : oto) (arg : uarg) (kw : list kv) : res (val * oto) :=\n%s.\n" % \
+            self.block(list(node.body))
+
+    def ior(self, node):
+        want = ast.parse("def __ior__(self, other):\n    self.update(other)\n    return self").body[0]
+        if ast.dump(node.args) != ast.dump(want.args) or [ast.dump(x) for x in node.body] != [ast.dump(x) for x in want.body]:
+            raise Unsupported("__ior__ of an unknown shape")
+        return ("Definition src_ior (self : oto) (arg : uarg) : res (val * oto) :=\n"
+                "bind (src_update self arg []) (fun r => Ok (VSelf, snd r)).\n")
+
+
 def generate(repo):
     path = os.path.join(repo, "boltons", "dictutils.py")
     tree = ast.parse(open(path).read())
@@ -402,6 +518,11 @@ def generate(repo):
             raise Unsupported("OneToOne.%s is not a plain method" % m)
         out.append(Tr(done).method(node, m))
         done.add(m)
+    for m in ("update", "__ior__"):
+        if not isinstance(defined.get(m), ast.FunctionDef):
+            raise Unsupported("OneToOne.%s is not a plain method" % m)
+    out.append(TrU().update(defined["update"]))
+    out.append(TrU().ior(defined["__ior__"]))
     out.append("(* class ManyToMany: add / remove / __delitem__ / replace *)")
     out += generate_m2m(tree)
     return "\n".join(out)
